@@ -56,7 +56,10 @@ def main():
     ap.add_argument("--jobs", type=int, default=8); ap.add_argument("--tier", default="quick"); ap.add_argument("--seed", type=int, default=0)
     ap.add_argument("--out", default=os.path.join(VERIF, "selftest", "last_run.json"))
     args = ap.parse_args()
-    muts = json.load(open(os.path.join(VERIF, "selftest", "mutants.json")))
+    import glob
+    muts = []
+    for f in sorted(glob.glob(os.path.join(VERIF, "selftest", "mutants.d", "*.json"))):
+        muts += json.load(open(f))
     if args.prop:
         muts = [m for m in muts if m["prop"] in args.prop.split(",")]
     if args.id:
